@@ -418,17 +418,23 @@ def receiver_body(E):
         P('receiver:application_failure_answered_once_on_the_offending_stream', errors == [(sid, gerr)])
 
 
-@harness('e.exception_to_error_frame', ['C12', 'C16', 'C08'], functions=['rsocket/frame.py::exception_to_error_frame', BASE + '.send_error'])
+@harness('e.exception_to_error_frame', ['C12', 'C16', 'C08'], functions=['rsocket/frame.py::exception_to_error_frame', BASE + '.send_error'],
+         replay='e_exception_to_error_frame')
 def exc_to_error(E):
     sid = E.fresh_int('sid', 0, 0x7FFFFFFF)
-    kind = E.path.choice(2, 'kind')
+    kind = E.path.choice(3, 'kind')
     codes = E.lookup('rsocket/error_codes.py::ErrorCode').members
     if kind == 0:
         ex = E.call(E.lookup('rsocket/exceptions.py::RSocketProtocolError'), [codes['REJECTED_SETUP']], dict(data='why'))
-    else:
+    elif kind == 1:
         ex = E.make_exc('ValueError', 'oops')
+    else:
+        # an application exception may carry any attributes of its own
+        ex = E.make_exc('ValueError', 'validation failed')
+        ex.attrs['data'] = {'field': 'x'}
+        ex.attrs['error_code'] = 12345
     fr = E.call(E.lookup('rsocket/frame.py::exception_to_error_frame'), [sid, ex])
     E.cover('converted')
     E.prove('error_frame:ERROR_on_the_given_stream', is_frame(fr, 'ErrorFrame') and E.getattr(fr, 'stream_id') is sid)
     E.prove('error_frame:code', E.getattr(fr, 'error_code') is (codes['REJECTED_SETUP'] if kind == 0 else codes['APPLICATION_ERROR']))
-    E.prove('error_frame:data_is_bytes', is_byteslike(E.getattr(fr, 'data')))
+    E.prove('error_frame:data_is_bytes[so that the frame can be serialised]', is_byteslike(E.getattr(fr, 'data')))
